@@ -91,6 +91,7 @@ func runE6(p *Program, sp *Spec, c *Collector) {
 	}
 	for _, nk := range t.NestedKills {
 		runNestedKills(p, sp, c, nk)
+		runCrossBrackets(p, sp, c, nk)
 	}
 	for _, rc := range t.RuleCoverage {
 		runRuleCoverage(p, sp, c, rc)
@@ -1746,6 +1747,113 @@ func runNestedKills(p *Program, sp *Spec, c *Collector, nk NestedKillSpec) {
 			}
 		}
 	}
+}
+
+// crossBrackets: a flag that Enter<A> sets to one constant and Exit<B> (B ≠ A) sets back to another is a bracket only if every
+// B belongs to an A: B's grammar parents must all be rules whose Enter callback sets the flag. classBody also hangs under
+// classCreatorRest (anonymous classes) and enumConstant: their end takes the flag back although no class declaration set it.
+func runCrossBrackets(p *Program, sp *Spec, c *Collector, nk NestedKillSpec) {
+	g := sp.G[nk.Grammar]
+	ms := p.methodsDeclaredOn(nk.Pkg, nk.Listener)
+	if g == nil || len(ms) == 0 {
+		return
+	}
+	type set struct {
+		rule, val string
+		pos       string
+		ctxTest   bool
+	}
+	sets := map[string][]set{}   // global -> constants stored by Enter callbacks
+	resets := map[string][]set{} // global -> constants stored by Exit callbacks
+	for _, fn := range ms {
+		kind, rule, ok := callbackRule(fn.Name())
+		if !ok || len(fn.Blocks) == 0 {
+			continue
+		}
+		sf := newSymFn(p, fn, 0)
+		sf.inlineOK = func(*ssa.Function) bool { return false }
+		for _, e := range sf.emissions() {
+			if !strings.HasPrefix(e.target, "globalstore:") || e.elem == nil || len(e.elem.Kids) == 0 || e.elem.Kids[0].Op != "const" {
+				continue
+			}
+			if strings.Count(strings.TrimPrefix(e.target, "globalstore:")[strings.LastIndex(e.target, "/")-len("globalstore:")+1:], ".") > 1 {
+				continue // a field of a record, not a flag
+			}
+			ctxTest := false
+			e.cond.walk(func(x *Sym) {
+				if x.Op == "param" && x.Name == "p1" {
+					ctxTest = true
+				}
+			})
+			st := set{rule, e.elem.Kids[0].String(), e.pos, ctxTest}
+			if kind == "Enter" {
+				sets[e.target] = append(sets[e.target], st)
+			} else {
+				resets[e.target] = append(resets[e.target], st)
+			}
+		}
+	}
+	var targets []string
+	for t := range resets {
+		targets = append(targets, t)
+	}
+	sort.Strings(targets)
+	for _, t := range targets {
+		for _, rs := range resets[t] {
+			setters := map[string]bool{}
+			for _, st := range sets[t] {
+				// a bracket: the setting rule encloses the resetting one (a flag set by an earlier sibling — an annotation in front
+				// of the declaration that consumes it — is a pending register, E6's consume-and-reset rule)
+				if st.val != rs.val && g.ReachableWithout(st.rule, nil, nil)[rs.rule] {
+					setters[st.rule] = true
+				}
+			}
+			if len(setters) == 0 || setters[rs.rule] {
+				continue // not a cross-rule bracket (same-rule brackets are E3's and the nested-bracket rule's business)
+			}
+			// a register that the resetting rule's own callbacks read is consumed there (pending-flag pattern), not a bracket
+			consumed := false
+			gk := strings.TrimPrefix(t, "globalstore:")
+			for _, fn := range ms {
+				if _, r2, ok := callbackRule(fn.Name()); ok && r2 == rs.rule {
+					rd, _ := getStateAn(p).locals(fn)
+					for gv := range rd {
+						if p.GlobalKey(gv) == gk {
+							consumed = true
+						}
+					}
+				}
+			}
+			if consumed {
+				continue
+			}
+			key := "crossbracket:" + nk.Pkg + "." + nk.Listener + " Exit" + strings.ToUpper(rs.rule[:1]) + rs.rule[1:] + " " + t[strings.LastIndex(t, ".")+1:]
+			var stray []string
+			for _, par := range g.Parents(rs.rule) {
+				if !setters[par] {
+					stray = append(stray, par)
+				}
+			}
+			sort.Strings(stray)
+			switch {
+			case len(stray) == 0:
+				c.Ob(nk.Props, "E6.cross-bracket", key, Discharged, "every "+rs.rule+" is the body of a rule whose Enter callback sets the flag", rs.pos, true)
+			case rs.ctxTest:
+				c.Ob(nk.Props, "E6.cross-bracket", key, Discharged, "the Exit callback takes the flag back only under a test on its own node", rs.pos, true)
+			default:
+				c.Ob(nk.Props, "E6.cross-bracket", key, Violated, nk.What+": the flag "+t[strings.LastIndex(t, ".")+1:]+" is set when a "+strings.Join(keysOf(setters), "/")+" begins and taken back when any "+rs.rule+" ends, but a "+rs.rule+" also occurs under "+strings.Join(stray, ", ")+" (an anonymous class body, an enum constant's body), where nothing set it: the enclosing declaration's state ends there", rs.pos, false)
+			}
+		}
+	}
+}
+
+func keysOf(m map[string]bool) []string {
+	var out []string
+	for k := range m {
+		out = append(out, k)
+	}
+	sort.Strings(out)
+	return out
 }
 
 // ---------------------------------------------------------------------------------------------
